@@ -1,5 +1,6 @@
 """C08 — truncated or failing input is reported and never invents data."""
 from props._rda import Rda
+from props._read import Trunc
 
 PROP = 'C08'
 PROPS_MODULES = ['LA.Props.C08']
@@ -13,4 +14,4 @@ MANIFEST = {
     'technique': 'Lean 4 proof (prefix monotonicity over client programs, fault absorption) + model/C differential correspondence with fault scripts',
     'note': 'Unmodelled format parsers are covered only through the interface contract; see DESIGN.md C08.',
 }
-ENGINES = [Rda(faults=True)]
+ENGINES = [Rda(faults=True), Trunc()]
